@@ -138,8 +138,45 @@ def matrix(repo):
         json.dump(out, open(out_path, "w"), indent=1, sort_keys=True)
 
 
+def recheck(repo):
+    """applies every kept patch to the repository copy `repo` and re-runs the quick checks its meta.json lists
+    under detected_by: every one of them must still report a VIOLATION (regression test of the checks)"""
+    env = dict(os.environ, VERIF_EVIDENCE_DIR=os.path.join(HERE, "scratch", "evidence-of-broken-trees"))
+    if repo != "/repo":
+        ct = os.path.join(HERE, "mc", "Cargo.toml")
+        t = open(ct).read().replace('path = "/repo/kiki"', f'path = "{repo}/kiki"')
+        open(ct, "w").write(t)
+        env["VERIF_REPO"] = repo
+    out_path = os.path.join(HERE, "seeded", "recheck.json")
+    out = {}
+    for d in sorted(os.listdir(os.path.join(HERE, "seeded"))):
+        p = os.path.join(HERE, "seeded", d, "patch.diff")
+        m = os.path.join(HERE, "seeded", d, "meta.json")
+        if not (os.path.exists(p) and os.path.exists(m)):
+            continue
+        want = json.load(open(m)).get("detected_by", [])
+        a = sh(f"git -C {repo} apply {p}")
+        if a.returncode != 0:
+            print(d, "does not apply", a.stderr[:200]); out[d] = {"applies": False}; continue
+        row = {}
+        try:
+            for c in want:
+                t0 = time.time()
+                r = subprocess.run([os.path.join(HERE, "check"), c, "quick"], text=True, capture_output=True, env=env)
+                row[c] = {"exit": r.returncode, "wall_s": round(time.time() - t0, 1)}
+                print(d, c, r.returncode, "" if r.returncode == 1 else "  <-- NO LONGER REPORTED", flush=True)
+        finally:
+            sh(f"git -C {repo} checkout -- .")
+        out[d] = row
+        json.dump(out, open(out_path, "w"), indent=1, sort_keys=True)
+    bad = [(d, c) for d, row in out.items() for c, v in row.items() if isinstance(v, dict) and v.get("exit") != 1]
+    print("regressions:", bad)
+
+
 if __name__ == "__main__":
     a = sys.argv
+    if len(a) == 4 and a[1] == "recheck" and a[2] == "--repo":
+        recheck(a[3]); sys.exit(0)
     if len(a) == 4 and a[1] == "matrix" and a[2] == "--repo":
         matrix(a[3]); sys.exit(0)
     if len(a) >= 5 and a[1] == "verify" and a[3] == "--": verify(a[2], " ".join(a[4:]))
